@@ -151,7 +151,7 @@ open Adeu
 def mid (t : Str) (p s : Nat) : Str := (t.take (t.length - s)).drop p
 
 theorem mid_length (t : Str) (p s : Nat) : (mid t p s).length = t.length - s - p := by
-  simp [mid, List.length_drop, List.length_take]; omega
+  simp [mid, List.length_drop, List.length_take]
 
 theorem mid_take (t : Str) (p s k : Nat) (hk : k ≤ t.length - s - p) :
     (mid t p s).take k = (t.drop p).take k := by
